@@ -11,7 +11,7 @@ Definition Rsc : Sc := {|
 
 (* expose the real-number operations hidden behind the record projections *)
 Ltac rsc :=
-  unfold s2, s3, s4, shalf, squarter in *;
-  cbn [T s0 s1 sadd ssub smul sdiv sneg Rsc] in *;
+  unfold shalf, squarter, sabs in *; unfold s4 in *; unfold s3 in *; unfold s2 in *;
+  cbn [T s0 s1 sadd ssub smul sdiv sneg sltb seqb Rsc] in *;
   change (T Rsc) with R in *;
   try match goal with |- @eq ?A ?a ?b => tryif constr_eq A R then idtac else change (@eq R a b) end.
